@@ -304,6 +304,14 @@ func c07InjectsWriters(c *core.Ctx, r *core.Report, ps []*procInfo) {
 		}
 	}
 	if inj := c.Roles().PropertyInject; inj != nil {
+		// (the Inject table interprets the method together with the helpers and stage objects it is split into)
+		parts := map[*ssa.Function]bool{}
+		reachesCall(inj, func(*ssa.CallCommon) bool { return false }, parts)
+		for f := range parts {
+			if core.PkgOf(f) == core.PkgOf(inj) {
+				decided[f] = "Inject table: the non-self candidates"
+			}
+		}
 		decided[inj] = "Inject table: the non-self candidates"
 	}
 	for _, st := range stores {
